@@ -3,12 +3,16 @@
 import json, sys
 pid = sys.argv[1]
 n = sys.argv[2] if len(sys.argv) > 2 else "3"
+rnd = sys.argv[3] if len(sys.argv) > 3 else ""  # round letter ("b", "c", ...): own worktree/out dir + list of changes already taken
 for l in open('/verif/properties.jsonl'):
     p = json.loads(l)
     if p['id'] == pid:
         break
 low = pid.lower()
-print(f"""You are an independent adversary for a verification study of the Go project tunnox-core (an intranet-penetration / port-mapping tunnel platform: server and client, TCP/WS/KCP/QUIC transports, custom packet framing, session management, Redis-backed cross-node forwarding). Your job: produce {n} DIFFERENT realistic source changes ("seeded defects"), each of which on its own breaks the semantic property below while the project still compiles and its existing test suite still passes.
+import io, contextlib
+buf = io.StringIO()
+with contextlib.redirect_stdout(buf):
+  print(f"""You are an independent adversary for a verification study of the Go project tunnox-core (an intranet-penetration / port-mapping tunnel platform: server and client, TCP/WS/KCP/QUIC transports, custom packet framing, session management, Redis-backed cross-node forwarding). Your job: produce {n} DIFFERENT realistic source changes ("seeded defects"), each of which on its own breaks the semantic property below while the project still compiles and its existing test suite still passes.
 
 PROPERTY {pid} — {p['title']}
 {p['statement']}
@@ -22,3 +26,20 @@ Rules:
 * When done, remove your worktree: `git -C /repo worktree remove --force /tmp/seed-{low}` (keep /tmp/seed-out/{pid}/).
 
 Final message: for each change a 3-line summary (what, where, what it needs to manifest) and confirmation of the three verifications.""")
+
+text = buf.getvalue()
+if rnd:
+    import glob
+    text = text.replace('/tmp/seed-out/', '/tmp/seed-out-%s/' % rnd).replace('/tmp/seed-%s' % low, '/tmp/seed%s-%s' % (rnd, low))
+    taken = []
+    for f in sorted(glob.glob('/verif/seeded/%s-*/meta.json' % pid)):
+        m = json.load(open(f))
+        taken.append('- ' + (m.get('summary', '') or '')[:330].replace('\n', ' '))
+    text += """
+
+ALREADY TAKEN — other adversaries have produced the following changes for this property; yours must differ from ALL of them in mechanism and preferably in location (do not re-use these ideas):
+""" + '\n'.join(taken) + """
+
+Additional notes: never use `git stash` (worktrees share the stash); skip the known-slow test TestClientConfigRepository_MillionConfigs (go test -skip) and ignore the tests that already fail or flake on the unchanged tree (TestBuiltInCloudControl_AuthenticationWithJWT, TestPortMappingRepository_LargeScale, TestManager_ContextCancellation). demo_cmd in meta.json must be a plain shell command without trailing remarks. Do not read anything under /verif and do not run any git command inside /verif. Favour changes that need a specific interleaving, fault, configuration, multi-step history or boundary input — and changes in parts of the code the property depends on that the earlier adversaries did not touch (other call paths, other backends/transports, other configurations, error/retry paths, start-up/restart paths).
+"""
+print(text)
